@@ -44,10 +44,12 @@ Configured(al, dn) == al # <<>> \/ dn # <<>>
 
 VARIABLES allow, deny,      \* the configured lists (sequences of entries)
           addr, net,        \* the address about to be connected to, as the dialer sees it, and the network
+          extra,            \* further addresses the same name resolves to (several A records): each is judged on its own
           reach,            \* how the address was reached: "control" (direct) | "literal" | "name" | "dnscache"
-          phase, verdict    \* "permit" | "refuse" | "open" (no list configured: no policy)
+          phase, verdict,   \* "permit" | "refuse" | "open" (no list configured: no policy)
+          xverdict          \* verdicts for the addresses in extra
 
-vars == <<allow, deny, addr, net, reach, phase, verdict>>
+vars == <<allow, deny, addr, net, extra, reach, phase, verdict, xverdict>>
 
 \* ---- mechanics: first match while walking a list, skipping what does not parse ----
 RECURSIVE Walk(_, _, _)
@@ -57,15 +59,18 @@ Walk(a, list, i) ==
     ELSE IF InCIDR(a, list[i]) THEN TRUE
     ELSE Walk(a, list, i + 1)
 
+Decide(a) == IF ~Configured(allow, deny) THEN "open"
+             ELSE IF net \notin SafeNets THEN "refuse"
+             ELSE IF Walk(a, deny, 1) THEN "refuse"
+             ELSE IF Walk(a, allow, 1) THEN "permit"
+             ELSE "refuse"
+
 Dial ==
     /\ phase = "start"
     /\ phase' = "done"
-    /\ verdict' = IF ~Configured(allow, deny) THEN "open"
-                  ELSE IF net \notin SafeNets THEN "refuse"
-                  ELSE IF Walk(addr, deny, 1) THEN "refuse"
-                  ELSE IF Walk(addr, allow, 1) THEN "permit"
-                  ELSE "refuse"
-    /\ UNCHANGED <<allow, deny, addr, net, reach>>
+    /\ verdict' = Decide(addr)
+    /\ xverdict' = [i \in DOMAIN extra |-> Decide(extra[i])]
+    /\ UNCHANGED <<allow, deny, addr, net, extra, reach>>
 
 Next == Dial
 
@@ -73,7 +78,9 @@ Next == Dial
 Done == phase = "done"
 Strip(list) == SelectSeq(list, Parsable)
 
-Sound == Done /\ Configured(allow, deny) => (verdict = "permit" <=> Permit(net, addr, allow, deny))
+Sound == Done /\ Configured(allow, deny) =>
+    /\ (verdict = "permit" <=> Permit(net, addr, allow, deny))
+    /\ \A i \in DOMAIN extra : xverdict[i] = "permit" <=> Permit(net, extra[i], allow, deny)   \* each address on its own
 DenyBeatsAllow == Done /\ verdict = "permit" =>
     \A i \in DOMAIN deny : Parsable(deny[i]) => ~InCIDR(addr, deny[i])
 OnlyAllowed == Done /\ verdict = "permit" => \E i \in DOMAIN allow : InCIDR(addr, allow[i])
